@@ -93,7 +93,7 @@ theorem fitsLP_lt (lp : LP) (n : Nat) (h : fitsLP lp n = true) : n < 256 ^ lp.wi
     exact Nat.lt_of_le_of_lt h hm
 
 theorem readFixedSize_ok (lp : LP) (n : Nat) (h : fitsLP lp n = true) (tail : Bytes) (cs : List Nat) :
-    ∃ cs', readFixedSize lp ⟨natLE lp.width n ++ tail, cs⟩ = (some n, ⟨tail, cs'⟩, ⟨lp.width, 0⟩) := by
+    ∃ cs', readFixedSize lp ⟨natLE lp.width n ++ tail, cs⟩ = (some n, ⟨tail, cs'⟩, {}) := by
   obtain ⟨cs', hr⟩ := readFull_append (natLE lp.width n) tail cs
   rw [natLE_length] at hr
   refine ⟨cs', ?_⟩
@@ -306,10 +306,10 @@ theorem sized_roundtrip (lp : LP) (d tail : Bytes) (cs : List Nat) (h : fitsLP l
     · have hd : d = [] := List.eq_nil_of_length_eq_zero h0
       subst hd
       simp only [List.length_nil, List.nil_append] at hs
-      exact ⟨cs1, ⟨lp.width, 0⟩, by simp [runOp, hs, rok]⟩
+      exact ⟨cs1, {}, by simp [runOp, hs, rok]⟩
     · obtain ⟨cs', a, hb⟩ := readBytes_append d tail cs1
-      exact ⟨cs', ⟨lp.width, 0⟩ + ⟨a, 0⟩, by simp [runOp, hs, h0, hb, rok]⟩
-  · obtain ⟨cs', c, ho⟩ := readObj_id_append d tail cs1 ⟨lp.width, 0⟩
+      exact ⟨cs', {} + ⟨a, 0⟩, by simp [runOp, hs, h0, hb, rok]⟩
+  · obtain ⟨cs', c, ho⟩ := readObj_id_append d tail cs1 {}
     exact ⟨cs', c, by simp [runOp, hs, ho]⟩
 
 theorem item_roundtrip (k : IK) (it e tail : Bytes) (cs : List Nat)
@@ -334,7 +334,7 @@ theorem item_roundtrip (k : IK) (it e tail : Bytes) (cs : List Nat)
     obtain ⟨cs', hr⟩ := readFull_append (numBytes w it) tail cs
     have hl : (numBytes w it).length = w := by simp [numBytes, natLE_length]
     rw [hl] at hr
-    exact ⟨cs', ⟨w, 0⟩, by simp [readOfItem, itemVal, runOp, hr, rok]⟩
+    exact ⟨cs', {}, by simp [readOfItem, itemVal, runOp, hr, rok]⟩
   | obj n =>
     simp only [encItem, Option.some.injEq] at he
     subst he
@@ -379,12 +379,12 @@ theorem op_roundtrip (op : WOp) (e tail : Bytes) (cs : List Nat) (he : encOp op 
     obtain ⟨cs', hr⟩ := readFull_append (numBytes w d) tail cs
     have hl : (numBytes w d).length = w := by simp [numBytes, natLE_length]
     rw [hl] at hr
-    exact ⟨cs', ⟨w, 0⟩, by simp [readOf1, valsOf1, runOp, hr, rok]⟩
+    exact ⟨cs', {}, by simp [readOf1, valsOf1, runOp, hr, rok]⟩
   | bool d =>
     simp only [encOp, Option.some.injEq] at he
     subst he
     obtain ⟨cs', hr⟩ := readFull_append [boolByte d] tail cs
-    refine ⟨cs', ⟨1, 0⟩, ?_⟩
+    refine ⟨cs', {}, ?_⟩
     have hb : (if [boolByte d].head? = some 0 then (0 : UInt8) else 1) = boolByte d := by
       cases d with
       | nil => simp [boolByte]
@@ -398,7 +398,7 @@ theorem op_roundtrip (op : WOp) (e tail : Bytes) (cs : List Nat) (he : encOp op 
     obtain ⟨cs', hr⟩ := readFull_append (padTo n d) tail cs
     have hl : (padTo n d).length = n := by simp [padTo]
     rw [hl] at hr
-    exact ⟨cs', ⟨n, 0⟩, by simp [readOf1, valsOf1, runOp, hr, rok]⟩
+    exact ⟨cs', {}, by simp [readOf1, valsOf1, runOp, hr, rok]⟩
   | bytes d =>
     simp only [encOp, Option.some.injEq] at he
     subst he
@@ -437,7 +437,7 @@ theorem op_roundtrip (op : WOp) (e tail : Bytes) (cs : List Nat) (he : encOp op 
           | ows _ => intro _ _; trivial
           | num _ => intro _ _; trivial
         obtain ⟨cs', c, hl⟩ := items_roundtrip k items b tail cs1 h1 hwi
-        exact ⟨cs', ⟨lp.width, 0⟩ + c, by simp [readOf1, valsOf1, runOp, hs, hl]⟩
+        exact ⟨cs', {} + c, by simp [readOf1, valsOf1, runOp, hs, hl]⟩
       · simp [h1, hf] at he
 
 theorem prog_roundtrip (ops : List WOp) (e tail : Bytes) (cs : List Nat)
